@@ -57,13 +57,17 @@ def make_graph(shape, n, rnd, outcome):
         k = rnd.choice([1, 2, 3])
         hold = 'sleep 0.%d' % rnd.choice([5, 6, 8])
         forced = shape.startswith('cheatf')       # the waiting job asks with `redo` (forced): after borrowing a slot it starts a job on it
-        nsh = int(shape[6 if forced else 5:] or 0) or rnd.choice([1, 2, 2, 3])      # with several locked targets the borrowed slot is given up and borrowed again
+        nested = shape.startswith('cheatn')       # after returning on the borrowed slot the script starts a nested `redo -j2` (own jobserver)
+        nsh = int(shape[6 if (forced or nested) else 5:] or 0) or rnd.choice([1, 2, 2, 3])      # with several locked targets the borrowed slot is given up and borrowed again
         shared = ['shared%d' % i for i in range(nsh)]
         for i, sh in enumerate(shared):
             files[sh + '.do'] = scen.leaf_do('sleep 0.%d' % (2 + 2 * i))
             files['b%d.do' % i] = scen.node_do([sh], 'sleep 0.3')
         files['a.do'] = scen.TRACE_HDR + ('echo "S $1 $$ $PPID" >&9\nsleep 0.0%d\n%s %s %s\necho "W+ $1 $$" >&9\nsleep 0.1\n'
-                                          'echo "W- $1 $$" >&9\necho a > $3\necho "E $1 $$ 0" >&9\n' % (5 + nsh, 'redo' if forced else 'redo-ifchange', ' '.join(shared), ' '.join(leaves[:1])))
+                                          'echo "W- $1 $$" >&9\n%secho a > $3\necho "E $1 $$ 0" >&9\n' % (5 + nsh, 'redo' if forced else 'redo-ifchange', ' '.join(shared), ' '.join(leaves[:1]),
+                                                                                           'redo -j2 inner\n' if nested else ''))
+        if nested:
+            files['inner.do'] = scen.node_do(['in1.leaf', 'in2.leaf', 'in3.leaf'], 'sleep 0.02')
         for i in range(k + 2):
             files['h%d.do' % i] = scen.leaf_do(hold)
         files['top.do'] = scen.node_do(['a'] + ['b%d' % i for i in range(nsh)] + ['h%d' % i for i in range(k + 2)] + leaves[1:], sl())
@@ -139,18 +143,24 @@ def case(item):
             m = re.search(r'on exit: expected (\d+) tokens; found (\S+)', text)
             if m:
                 anoms.append(dict(key='tokens-not-conserved:own:%s' % outcome.split('-')[0], what='%s: %s' % (argv, m.group(0))))
+        # a nested `redo -jN` started by a script reports its self-check in that script's log
+        m = re.search(r'on exit: expected (\d+) tokens; found (\S+)', pj.logs_text())
+        if m and not any(a['key'].startswith('tokens-not-conserved:own') for a in anoms):
+            anoms.append(dict(key='tokens-not-conserved:nested-own:%s' % outcome.split('-')[0], what='a nested redo -jN inside %s: %s' % (argv, m.group(0))))
         # exit status sanity (so that the outcome classes really are what they claim)
         want_ok = outcome == 'ok'
-        if want_ok and r.rc != 0:
+        if want_ok and r.rc != 0 and not anoms:
             return dict(verdict='inconclusive', why='all-succeeding build exited %s (C09 matter): %s' % (r.rc, text[-200:]), sample=sample)
-        if not want_ok and r.rc == 0:
+        if not want_ok and r.rc == 0 and not anoms:
             return dict(verdict='inconclusive', why='build expected to fail exited 0', sample=sample)
         # (c) -j respected.  After an error exit a process legitimately gives back the slots of jobs it leaves
         # behind, so the bound is only demanded for successful and failing builds.
         ov = max_work_overlap(recs)
         bound = slots + (1 if log else 0)
         sets['overlap_seen'] = ['%d/%d%s' % (ov, slots, '+log' if log else '')]
-        if not outcome.startswith('err'):
+        if shape.startswith('cheatn'):
+            pass        # a script that starts its own `redo -jN` adds that jobserver's slots: the outer limit does not apply
+        elif not outcome.startswith('err'):
             if ov > bound:
                 anoms.append(dict(key='overlap-exceeds-j:%s' % ('log' if log else 'nolog'),
                                   what='%d work sections at once with %d slots%s' % (ov, slots, ' (+1 allowed for the followed job)' if log else '')))
@@ -277,6 +287,7 @@ def items_for(tier, rnd):
                         items.append((mode, 'cheat%d' % nsh, 4, nsh + extra, True, outcome, cmd, rnd.randrange(10 ** 6)))
                         if outcome == 'ok':
                             items.append((mode, 'cheatf%d' % nsh, 4, nsh + extra, True, outcome, cmd, rnd.randrange(10 ** 6)))
+                            items.append((mode, 'cheatn%d' % nsh, 4, nsh + extra, True, outcome, cmd, rnd.randrange(10 ** 6)))
     for rep in range(1 if quick else 8):
         for outcome in ('err-cycle', 'err-tmpdir', 'err-empty'):
             for slots in (2, 3, 4):
